@@ -139,14 +139,21 @@ def _judge(model, cls, kind, sym, fields, pss, mem):
             # operands drawn from {0, 2, "", "s", False, True}; value, type and
             # the sequence of evaluated operands must be Python's
             from .. import evaljudge
-            wit, n_ = evaljudge.judge_logical(mem.node, sym, mem.owner.node)
-            if wit:
+            try:
+                wit, n_ = evaljudge.judge_logical(mem.node, sym, mem.owner.node)
+            except AnalysisError:
+                wit, n_ = None, 0
+            if wit is None:
+                pass                # judge unavailable: the structural reading
+            elif wit:
                 return False, (f"'{sym}' chains are not evaluated as Python "
                                f"evaluates them: {wit[0][:260]}"
                                + (f" (and {len(wit) - 1} more of {n_} chains)"
                                   if len(wit) > 1 else ""))
-            return True, (f"as Python's '{sym}' on {n_} operand chains: same "
-                          "value, same operands evaluated, in the same order")
+            else:
+                return True, (f"as Python's '{sym}' on {n_} operand chains: "
+                              "same value, same operands evaluated, in the same "
+                              "order")
             fn = {"or": "any", "and": "all"}[sym]
             if rv[0] == "call" and rv[1] == fn and _seq_over(rv[2][0], f):
                 if rv[2][0][1] != "gen":
